@@ -205,6 +205,7 @@ func (l *Lexer) scanAccount() Token {
 	start := l.pos
 	startPos := l.position()
 	lastNonSpace := start
+	endPos := startPos
 
 	for l.pos < len(l.input) {
 		r, size := utf8.DecodeRuneInString(l.input[l.pos:])
@@ -223,12 +224,24 @@ func (l *Lexer) scanAccount() Token {
 		}
 
 		l.pos += size
-		l.column++
+		l.column += utf16Width(r)
 		lastNonSpace = l.pos
+		endPos = l.position()
 	}
 
+	// the token ends with the name; a single trailing blank is not part of it
 	value := l.input[start:lastNonSpace]
-	return Token{Type: TokenAccount, Value: value, Pos: startPos, End: l.position()}
+	return Token{Type: TokenAccount, Value: value, Pos: startPos, End: endPos}
+}
+
+// utf16Width is the number of UTF-16 code units of a character. Columns are
+// counted in UTF-16 code units, the unit LSP positions use, so that a
+// position taken from a token can be sent to the client as it is.
+func utf16Width(r rune) int {
+	if r >= 0x10000 {
+		return 2
+	}
+	return 1
 }
 
 // isAccountTerminator returns true for characters that end account names in hledger format.
@@ -289,7 +302,7 @@ func (l *Lexer) scanCurrencySymbol() Token {
 	startPos := l.position()
 	r, size := utf8.DecodeRuneInString(l.input[l.pos:])
 	l.pos += size
-	l.column++
+	l.column += utf16Width(r)
 	return Token{Type: TokenCommodity, Value: string(r), Pos: startPos, End: l.position()}
 }
 
@@ -477,9 +490,9 @@ func (l *Lexer) peekRune() rune {
 
 func (l *Lexer) advance() {
 	if l.pos < len(l.input) {
-		_, size := utf8.DecodeRuneInString(l.input[l.pos:])
+		r, size := utf8.DecodeRuneInString(l.input[l.pos:])
 		l.pos += size
-		l.column++
+		l.column += utf16Width(r)
 	}
 }
 
